@@ -61,7 +61,6 @@ let c17_case args =
             L [A "known"; of_opt str_to_atom (Model.known_C17 o)];
             L [A "resp"; of_list str_to_atom resp];
             L [A "touch"; of_list str_to_atom (Model.may_touch o)];
-            L [A "rewritten"; of_list str_to_atom (Model.rewritten_each_run o)];
             L [A "nonempty"; of_bool (Model.nonempty_outputs o)];
             L [A "good_fresh"; of_bool (Model.good_fresh resp obs fresh.(v))];
             L [A "good_rerun"; of_bool (Model.good_rerun prev_obs obs)] ]
